@@ -62,6 +62,7 @@ def handle (line : String) : String :=
       | "gnp" => run handleGnp
       | "gnpstat" => "m.none=0"
       | "gnpdet" => "m.none=0"
+      | "parbig" => "m.build=0"
       | "xml" => run handleXml
       | "par" => "m.build=0"
       | "xmlbig" => "m.build=0"
